@@ -15,7 +15,7 @@ FUNCTIONS = ["ibldsp.spiketrains._spikes_venn", "spikes_venn2", "spikes_venn3", 
 ASSUMPTIONS = [
     "Venn counting: 2-3 sorters with up to 2 spikes each, sorted sample times and channels symbolic on a tiny grid (samples_binsize=2, chunk_size 4 or 6, channels_binsize=2, 4 channels); tqdm/print are side effects",
     "stack: labels symbolic in {0,1,2} on up to 4 traces (np.unique forks), one sample per trace, aggregation by sum / mean",
-    "rolling_window: concrete length n <= 9 with symbolic values, odd window lengths 3..7, all five window kinds; window weights are the doubles NumPy computes (a constant is returned within 1e-12 relative)",
+    "rolling_window: concrete length n <= 9 with symbolic values, window lengths 3..8 (odd and even), all five window kinds; window weights are the doubles NumPy computes (a constant is returned within 1e-12 relative)",
 ]
 OUTSIDE = ["cadzow / svd_denoise_npx (LAPACK SVD)", "smooth.lp (FFT)", "non_uniform_savgol / smooth_interpolate_savgol (inverse of a symbolic Vandermonde matrix: non-linear real arithmetic, not attempted)", "stack with a header (pandas groupby)"]
 EXPLANATION = "spike times/channels fork through searchsorted and the per-bin masks; counts are ITE sums."
@@ -133,7 +133,7 @@ def cases(tier):
     for agg in ("sum", "mean"):
         cs.append(Case(f"stack_{agg}", "case_stack", {"ntr": b["stack_ntr"], "agg": agg}))
     for window in ("flat", "hanning", "hamming", "bartlett", "blackman"):
-        for wl in (3, 5) if tier == "quick" else (3, 5, 7):
+        for wl in (3, 4, 5) if tier == "quick" else (3, 4, 5, 6, 7, 8):
             cs.append(Case(f"rolling_{window}_{wl}", "case_rolling", {"n": 7 if tier == "quick" else 9, "wl": wl, "window": window}))
     return cs
 
